@@ -3,7 +3,14 @@ a copy and its original, and separately constructed graphs, are independent.
 
 A case is a HISTORY over a small world of live objects:
   ["new", cls, vs] ["copy", o] ["addf", o, ts] ["addfs", o, tss] ["adds", o, d1, d2, ch]
-  ["rm", o, kind, pos] ["rmfrom", o, [[kind, pos]..]] ["node", o, n] ["edge", o, u, v]
+  ["rm", o, kind, pos] ["rmfrom", o, [[kind, pos]..], argkind] ["node", o, n] ["edge", o, u, v]
+argkind (optional trailing string; the model never sees it, the expected behaviour is the same for every kind):
+  rmfrom: list | set | tuple | frozenset | gen | filter | map | keysF | keysS (the registry's own .keys() view: removes
+          every F- / S-node; the position list is then ignored);   addf / adds: list | set | frozenset | tuple | keys
+          (only when the targets have no duplicates).
+case["obs"] = "all" (default: every live object is observed after every op, so each op runs on objects whose f_nodes /
+s_nodes / intervention_sets / domain_ids / children were just queried -- a cached property would go stale) or "last"
+(nothing is queried before the final op: statuses are compared at every step, observables only at the end).
 cls 0 = AugmentedGraph, 1 = AugmentedPAG; objects are numbered in creation order; augmented nodes are referred to
 by kind (0 F, 1 S) and POSITION in the registry (insertion order) and every observable is rendered without the names
 of augmented nodes: the naming policy is free, only freshness is checked.  After EVERY op EVERY live object is observed.
@@ -63,7 +70,8 @@ def alphabet(nobj, maxobj, cls):
         ops += [["addf", o, [0]], ["addf", o, [1]], ["addf", o, [0, 1]], ["addfs", o, [[2], [0]]],
                 ["adds", o, 1, 2, [0]], ["adds", o, 2, 3, [1]],
                 ["rm", o, 0, 0], ["rm", o, 0, 1], ["rm", o, 1, 0],
-                ["rmfrom", o, [[0, 0]]], ["rmfrom", o, [[1, 0]]],
+                ["rmfrom", o, [[0, 0]], "list"], ["rmfrom", o, [[1, 0]], "set"],
+                ["rmfrom", o, [[0, 0]], "gen"], ["rmfrom", o, [], "keysF"],
                 ["node", o, 3], ["edge", o, 0, 1]]
     return ops
 
@@ -88,7 +96,15 @@ WITNESSES = [  # Refuted.v: h_reuse+add, h_copy+add, h_two+add_s, h_snode, h_rmf
     [["new", 1, [0, 1, 2]], ["adds", 0, 1, 2, [0]], ["copy", 0], ["rm", 1, 1, 0]],
     [["new", 1, [0, 1, 2]], ["adds", 0, 1, 2, [0]], ["adds", 0, 2, 3, [1]], ["rm", 0, 1, 0], ["adds", 0, 3, 4, [2]]],
     [["new", 1, [0, 1, 2]], ["addf", 0, [0]], ["rmfrom", 0, [[0, 0]]]],
+    # argument kinds of remove_nodes_from: one-shot iterables and the registry's own key view
+    [["new", 0, [0, 1, 2]], ["addf", 0, [0]], ["adds", 0, 1, 2, [1]], ["rmfrom", 0, [[0, 0], [1, 0]], "gen"]],
+    [["new", 1, [0, 1, 2]], ["addf", 0, [0]], ["addf", 0, [1]], ["rmfrom", 0, [], "keysF"]],
+    [["new", 0, [0, 1, 2]], ["adds", 0, 1, 2, [0]], ["adds", 0, 2, 3, [1]], ["rmfrom", 0, [], "keysS"]],
+    [["new", 1, [0, 1, 2]], ["addf", 0, [0]], ["addf", 0, [1]], ["rmfrom", 0, [[0, 1]], "filter"], ["addf", 0, [1]]],
+    [["new", 0, [0, 1, 2]], ["addf", 0, [0]], ["copy", 0], ["rmfrom", 1, [[0, 0]], "map"], ["addf", 1, [0]]],
 ]
+RM_KINDS = ["list", "set", "tuple", "frozenset", "gen", "filter", "map", "keysF", "keysS"]
+ADD_KINDS = ["list", "set", "frozenset", "tuple", "keys"]
 
 
 def random_history(rng, length):
@@ -113,7 +129,7 @@ def random_history(rng, length):
             ts = rng.sample(nodes[:4], rng.choice([0, 1, 1, 1, 2, 2, 3]))
             if rng.random() < 0.04 and ts:
                 ts = ts + [ts[0]]
-            ops.append(["addf", o, ts])
+            ops.append(["addf", o, ts] + ([rng.choice(ADD_KINDS)] if len(set(ts)) == len(ts) else []))
             nreg[o][0] += 1
         elif r < 0.36:
             tss = [rng.sample(nodes[:4], rng.choice([1, 2])) for _ in range(rng.choice([1, 2, 3]))]
@@ -121,7 +137,7 @@ def random_history(rng, length):
             nreg[o][0] += len(tss)
         elif r < 0.52:
             d1 = rng.randint(1, 4)
-            ops.append(["adds", o, d1, d1 + rng.randint(1, 2), rng.sample(nodes, rng.choice([0, 1, 1, 2]))])
+            ops.append(["adds", o, d1, d1 + rng.randint(1, 2), rng.sample(nodes, rng.choice([0, 1, 1, 2])), rng.choice(ADD_KINDS)])
             nreg[o][1] += 1
         elif r < 0.78:
             k = 0 if rng.random() < 0.6 else 1
@@ -134,7 +150,14 @@ def random_history(rng, length):
                 k = rng.randint(0, 1)
                 items.append([k, rng.randrange(nreg[o][k] + 1)])
             items = [list(x) for x in sorted(set(map(tuple, items)))]
-            ops.append(["rmfrom", o, items])
+            ak = rng.choice(RM_KINDS)
+            if ak in ("keysF", "keysS"):
+                if rng.random() < 0.5:          # whole-registry removal is drastic: keep it at half its share
+                    ak = "gen"
+                else:
+                    items = []
+                    nreg[o][0 if ak == "keysF" else 1] = 0
+            ops.append(["rmfrom", o, items, ak])
             for k, _ in items:
                 nreg[o][k] = max(0, nreg[o][k] - 1)
         elif r < 0.92:
@@ -152,23 +175,38 @@ def gen_cases(tier, rng):
         for n in range(0, 4):
             for h in histories(n, cls):
                 yield {"kind": "exh%d" % n, "ops": h}
+                if n >= 2:
+                    yield {"kind": "exh%d-last" % n, "ops": h, "obs": "last"}
     if tier != "quick":
         for cls in (0, 1):
             for h in histories(4, cls, maxobj=2):
                 yield {"kind": "exh4", "ops": h}
     nr, ln = (400, 20) if tier == "quick" else (2500, 120)
-    for _ in range(nr):
-        yield {"kind": "rand", "ops": random_history(rng, ln)}
+    for i in range(nr):
+        h = random_history(rng, ln)
+        if i % 4 == 3:
+            yield {"kind": "rand-last", "ops": h, "obs": "last"}
+        else:
+            yield {"kind": "rand", "ops": h}
 
 
 # ------------------------------------------------------------------ wire format
-def enc_op(op):
+def _argkind(op):
+    return op[-1] if isinstance(op[-1], str) else "list"
+
+
+def enc_op(op, nops):
     t = OPN[op[0]]
-    return [t] + list(op[1:])
+    body = list(op[1:-1]) if isinstance(op[-1], str) else list(op[1:])
+    if op[0] == "rmfrom" and _argkind(op) in ("keysF", "keysS"):   # every position the registry can have
+        k = 0 if _argkind(op) == "keysF" else 1
+        body[1] = [[k, i] for i in range(3 * nops + 3)]
+    return [t] + body
 
 
 def encode(case):
-    return [case.get("mode", MODE), [enc_op(op) for op in case["ops"]]]
+    n = len(case["ops"])
+    return [case.get("mode", MODE), [enc_op(op, n) for op in case["ops"]]]
 
 
 def _derived(obj):
@@ -232,9 +270,35 @@ def run_impl(case):
     def aug_count(G):
         return len(G.nodes) - sum(1 for n in G.nodes if _is_ord(inv, n))
 
-    for op in case["ops"]:
+    def as_kind(items, kind, G=None):
+        items = list(items)
+        if kind == "set":
+            return set(items)
+        if kind == "frozenset":
+            return frozenset(items)
+        if kind == "tuple":
+            return tuple(items)
+        if kind == "keys":
+            return dict.fromkeys(items).keys()
+        if kind == "gen":
+            return (x for x in items)
+        if kind == "filter":
+            return filter(lambda x: True, items)
+        if kind == "map":
+            return map(lambda x: x, items)
+        if kind == "keysF":
+            return G.graph["F-nodes"].keys()
+        if kind == "keysS":
+            return G.graph["S-nodes"].keys()
+        return items
+
+    last_only = case.get("obs") == "last"
+    nops = len(case["ops"])
+    for step_i, op in enumerate(case["ops"]):
         st, reused = 0, 0
         t = op[0]
+        ak = _argkind(op)
+        quiet = last_only and step_i < nops - 1
         try:
             if t == "new":
                 G = (am.AugmentedGraph, am.AugmentedPAG)[op[1]]()
@@ -247,16 +311,16 @@ def run_impl(case):
                 if t == "copy":
                     objs.append(G.copy())
                 elif t in ("addf", "addfs", "adds"):
-                    before = aug_count(G)
+                    before = 0 if last_only else aug_count(G)
                     want = 1
                     if t == "addf":
-                        G.add_f_node([lab(v) for v in op[2]])
+                        G.add_f_node(as_kind([lab(v) for v in op[2]], ak))
                     elif t == "addfs":
                         want = len(op[2])
                         G.add_f_nodes_from([[lab(v) for v in ts] for ts in op[2]])
                     else:
-                        G.add_s_node((op[2], op[3]), [lab(v) for v in op[4]])
-                    if aug_count(G) - before != want:
+                        G.add_s_node((op[2], op[3]), as_kind([lab(v) for v in op[4]], ak))
+                    if not last_only and aug_count(G) - before != want:
                         reused = 1
                 elif t == "rm":
                     keys = list(G.graph["F-nodes" if op[2] == 0 else "S-nodes"])
@@ -270,7 +334,7 @@ def run_impl(case):
                         keys = list(G.graph["F-nodes" if k == 0 else "S-nodes"])
                         if pos < len(keys):
                             names.append(keys[pos])
-                    G.remove_nodes_from(names)
+                    G.remove_nodes_from(as_kind(names, ak, G))
                 elif t == "node":
                     G.add_node(lab(op[2]))
                 elif t == "edge":
@@ -279,7 +343,7 @@ def run_impl(case):
             st = 1
         except nx.NetworkXError:
             st = 2
-        trace.append([st, [_render(G, inv) for G in objs], reused])
+        trace.append([st, None if quiet else [_render(G, inv) for G in objs], reused])
     return trace
 
 
@@ -307,10 +371,10 @@ def compare(case, impl, model):
         name = ops[i][0]
         if a[2] and not asis:
             return "fresh-name"
-        if a[:2] == b[:2]:
-            continue
         if a[0] != b[0]:
             return "status@" + name
+        if a[1] is None or a[1] == b[1]:
+            continue
         if len(a[1]) != len(b[1]):
             return "objects@" + name
         tgt = None if name in ("new", "copy") else ops[i][1]
@@ -341,7 +405,7 @@ def nontrivial(case, model):
 
 def key(case):
     import json
-    return json.dumps(case["ops"])
+    return json.dumps([case["ops"], case.get("obs", "all")])
 
 
 def _drop(ops, i):
@@ -383,14 +447,18 @@ def shrink(case):
             yield dict(case, ops=cand)
     for i, op in enumerate(ops):
         if op[0] == "addf" and len(op[2]) > 1:
-            yield dict(case, ops=ops[:i] + [["addf", op[1], op[2][:1]]] + ops[i + 1:])
+            yield dict(case, ops=ops[:i] + [["addf", op[1], op[2][:1]] + op[3:]] + ops[i + 1:])
         if op[0] == "addfs" and len(op[2]) > 1:
             yield dict(case, ops=ops[:i] + [["addfs", op[1], op[2][:-1]]] + ops[i + 1:])
         if op[0] == "addfs" and len(op[2]) == 1:
             yield dict(case, ops=ops[:i] + [["addf", op[1], op[2][0]]] + ops[i + 1:])
         if op[0] == "adds" and op[4]:
-            yield dict(case, ops=ops[:i] + [["adds", op[1], op[2], op[3], op[4][:-1]]] + ops[i + 1:])
+            yield dict(case, ops=ops[:i] + [["adds", op[1], op[2], op[3], op[4][:-1]] + op[5:]] + ops[i + 1:])
         if op[0] == "rmfrom" and len(op[2]) > 1:
-            yield dict(case, ops=ops[:i] + [["rmfrom", op[1], op[2][:-1]]] + ops[i + 1:])
+            yield dict(case, ops=ops[:i] + [["rmfrom", op[1], op[2][:-1]] + op[3:]] + ops[i + 1:])
+        if isinstance(op[-1], str) and op[-1] not in ("list", "keysF", "keysS"):
+            yield dict(case, ops=ops[:i] + [op[:-1] + ["list"]] + ops[i + 1:])
+        if case.get("obs") == "last":
+            yield dict(case, obs="all")
         if op[0] == "new" and op[1] == 1:
             yield dict(case, ops=ops[:i] + [["new", 0, op[2]]] + ops[i + 1:])
